@@ -105,31 +105,16 @@ def specNames : List (String × String × String) := [
   ("COMPUTATION_STRATEGIES", "cpu", "HomogeneousCPUStrategy")
 ]
 
-/-- the documented default of every option that takes a value (what `tapkee --help` promises; for --eigenshift the value
-    written in the source and documented for the library keyword, see F-CLI-DEFAULT) -/
-def specDefaults : List (String × String) := [
-  ("input-file", "/dev/stdin"),
-  ("output-file", "/dev/stdout"),
-  ("output-projection-matrix-file", "/dev/null"),
-  ("output-projection-mean-file", "/dev/null"),
-  ("delimiter", ","),
-  ("method", "locally_linear_embedding"),
-  ("neighbors-method", "covertree"),
-  ("eigen-method", "dense"),
-  ("computation-strategy", "cpu"),
-  ("target-dimension", "2"),
-  ("num-neighbors", "10"),
-  ("gaussian-width", "1.0"),
-  ("timesteps", "1"),
-  ("eigenshift", "1e-9"),
-  ("landmark-ratio", "0.2"),
-  ("spe-tolerance", "1e-5"),
-  ("spe-num-updates", "100"),
-  ("max-iters", "1000"),
-  ("fa-epsilon", "1e-5"),
-  ("sne-perplexity", "30.0"),
-  ("sne-theta", "0.5"),
-  ("squishing-rate", "0.99")
+/-- Options whose default is meant to be the LIBRARY's documented default of the keyword they set (the doc comment of
+    the keyword in defines/keywords.hpp, extracted as `Gen.Cli.libDocDefaults`).  The other value options
+    (--num-neighbors 10, --timesteps 1, --max-iters 1000, --spe-tolerance 1e-5, --landmark-ratio 0.2, --fa-epsilon 1e-5,
+    file names, delimiter, method names) are choices of the CLI that differ from the library's or have no library
+    counterpart: their only documentation is `tapkee --help`, which cxxopts prints from the very literal in
+    `with_default(…)`; they carry NO spec row here (changing one is not a violation) — checks/c20.py compares what the
+    library receives without the option with what `--help` of the same binary promises. -/
+def specMirrorsLibrary : List String := [
+  "target-dimension", "gaussian-width", "eigenshift", "spe-num-updates", "sne-perplexity", "sne-theta",
+  "squishing-rate"
 ]
 
 /-- the bad-input predicates that must make the program exit non-zero before it touches any data (property text:
@@ -226,11 +211,10 @@ theorem main_catches_everything :
     catchExit cliMainCatch ≠ 0 ∧ (cliMainCatch.any (fun c => c.1 == "...")) = true ∧
     (∀ c ∈ cliMainCatch, c.2 ≠ 0) := by decide +kernel
 
-/-- the default written in `with_default(…)` is the documented one, for every option that takes a value, and only those
-    options have one -/
-theorem defaults_match_spec :
-    (∀ r ∈ cliOptions, r.hasValue = true → (specDefaults.lookup r.canonical) = some r.default) ∧
-    (∀ d ∈ specDefaults, ((optRow? cliOptions d.1).map (·.hasValue)) = some true) := by decide +kernel
+/-- for the options that mirror the library: the default written in `with_default(…)` is the default the keyword's
+    documentation states -/
+theorem defaults_follow_library_doc : ∀ opt ∈ specMirrorsLibrary, mirrorsLibraryDoc specOptions opt = true := by
+  decide +kernel
 
 /-- the default an option really has (the text cxxopts stores, as `with_default` formats it) is the literal written in
     `with_default(…)` -/
